@@ -293,20 +293,61 @@ PROPS = {
                      "disposition, detach not closed / closed / closed with error; every legal script up to length 5 (thorough 7) plus random ones of length 3..12; "
                      "the generator simulates what is in flight and leaves out the three combinations whose outcome depends on the order in which tokio::select! "
                      "polls the link's two channels (recorded as known findings c13-second-detach / c13-transfer-after-remote-detach)"},
+            {"name": "lifer", "n_quick": 600, "n_thorough": 20000, "model": "coq/Link/RecvLife.v",
+             "rule": "one receiver link (credit mode Auto(2), auto-accept) on an open session: attach, recv, detach, close, drop, cancellation of the pending call "
+                     "against a peer's attach (also answering a re-attach), transfer (one complete unsettled delivery, within the credit), detach not closed / closed / "
+                     "closed with error; every legal script of up to 5 events (thorough 6), then up to 6 (thorough 8) with only those local events that find the handle "
+                     "in the state they need, plus random ones of length 3..12; the generator simulates the handle, the link's unseen queue and the peer's credit and "
+                     "leaves out the two combinations whose outcome depends on the order in which the session engine's select! polls the link's two channels "
+                     "(detach() meeting an unseen closing peer detach, close() meeting an unseen non-closing one)"},
+            {"name": "lifex", "n_quick": 2500, "n_thorough": 60000, "oracle": False,
+             "rule": "session + one receiver link: as `life` with attr / recv / peer transfer in place of att / send / peer flow+disposition, including the combinations "
+                     "left out of lifer; direct oracle only"},
         ],
         "rule": "lifem: a case is one script run against the real session engine (client, scripted peer, paused clock, one event per barrier) and through the "
                 "extracted Coq step function; compared per step: begin/end frames (with error or not), results of begin()/end()/on_end(); lifel: the same for one "
-                "sender link (attach/transfer/detach frames with the closed flag, results of attach/send/detach/close); life: the trace "
+                "sender link (attach/transfer/detach frames with the closed flag, results of attach/send/detach/close); lifer: the same for one receiver link (attach/flow/"
+                "disposition/detach frames, a session end written because of the link, results of attach/recv/detach/close); lifex: as life for a receiver link, the link "
+                "clauses reported under c13-r-* (in addition: a peer detach that arrived before ours is answered by the first link operation that runs afterwards - "
+                "c13-r-detach-unanswered, c13-r-detach-behind-transfer when that operation is a recv() returning a queued delivery; no end written unless one side ended "
+                "the session - c13-r-session-torn-down); life: the trace "
                 "(all frames as tokens, all API results) is checked by the direct oracle: one begin, at most one end, nothing after the end; at most one detach "
                 "per attach and nothing for the handle afterwards; a peer end answered; a peer detach answered in kind; the peer's error reported; the "
                 "connection never torn down; non-trivial = attach succeeded and a detach/close/end completed",
         "trusted": ["model scope: see the headers of coq/Session/SessLife.v (session lifecycle) and coq/Link/LinkLife.v (sender link: Sender::{attach, send, detach, close, drop}, "
-                    "SenderLink detach handling, shared_inner::{detach_with_error, close_with_error, reattach_and_then_close})", "scripted peer and barrier as for C12"],
+                    "SenderLink detach handling, shared_inner::{detach_with_error, close_with_error, reattach_and_then_close}) and coq/Link/RecvLife.v (receiver link: "
+                    "Receiver::{attach, recv, detach, close, drop}, recv_inner's Detach arm, the same shared_inner functions, the session's handling of a transfer for a dropped handle)", "scripted peer and barrier as for C12"],
         "assumptions": ["the peer stays within the protocol (violations are C15)", "one stimulus per quiescence barrier"],
-        "partial": ["the link model covers the SENDING link; the receiving link's lifecycle and the combination with session end are decided by the direct oracle over "
-                    "generated scripts only",
+        "partial": ["the link models cover one sending link (LinkLife.v) and one receiving link (RecvLife.v, credit mode Auto(2), auto-accept, single-frame deliveries) on a "
+                    "session that stays mapped; the combination with session end is decided by the direct oracle over generated scripts only (life, lifex)",
                     "the link clauses 'at most one detach per attach' and 'answer in kind' are false of the code in named corner cases: proved with the exact exception, "
                     "refutation witnesses in Props/C13.v, recorded as known findings"],
+    },
+    "C14": {
+        "class_prefixes": ["c14-", "harness-crash"],
+        "subs": [
+            {"name": "cutm", "n_quick": 200, "n_thorough": 2000, "model": "coq/Conn/Failure.v",
+             "rule": "the cut cases whose trigger is inside the model's alphabet (pipes > 256 bytes, injection positions that are not themselves protocol errors), abstracted to the "
+                     "model's events: the application calls of the four tasks in the order in which they were issued, the peer's frames as the client read them, the failure "
+                     "(transport eof/reset, peer close / end / detach of either link, closing or not, with or without error) and the propagation step; compared: the abstract result "
+                     "of every call (ok, error with scope link/session/connection and whether it carries the peer's error, or PENDING)"},
+            {"name": "cut", "n_quick": 200, "n_thorough": 500, "oracle": False,
+             "rule": "client connection + session + sender + receiver driven by four application tasks (open, begin, close / attach, end / send, send_batchable + its outcome, a "
+                     "two-frame send, detach / recv, accept, a two-frame delivery, close) against a reactive scripted peer; the transport is cut at EVERY byte offset of the reference "
+                     "conversation in both directions (EOF; thorough: also reset and stall-then-EOF, pipes of 64 and 256 bytes), and a close / end / detach of either link, closing or "
+                     "not, with and without error, is injected before and after every one of the peer's 15 frames, answered or not; every call is bounded by 600 s of virtual time; "
+                     "direct oracle: no call pending, no panic, data-path calls fail, errors name the level that stopped and carry the peer's condition, engine tasks terminate"},
+        ],
+        "rule": "cutm: a case is the abstract scenario of one cut case, run through the extracted Coq step function; compared with the abstracted results of the real run. cut: direct "
+                "oracle on the concrete trace; non-trivial = at least one call was in progress at the failure or issued after it.",
+        "trusted": ["model scope: see the header of coq/Conn/Failure.v: how a stop propagates connection -> session -> links (stop-reason cells, channel closure, outcome oneshots) and "
+                    "what every public call returns in every state; wire output, ids, sizes and time are abstracted away",
+                    "the abstraction of concrete traces in harness/src/cutm.rs (two input-side rules documented there: after a reset only the frames the client read count; "
+                    "the peer's answer to a receiver attach that arrives in the same burst as a session-stopping failure is moved behind the failure)",
+                    "scripted peer and barrier as for C12; the order in which the session's select! takes a ready link frame vs. a control message is the seeded one"],
+        "assumptions": ["one connection, one session, one sender, one receiver", "virtual time: 'bounded' = 600 s after max(failure, issue)"],
+        "partial": ["'within bounded time' is decided on the model as 'in the step of the failure or the propagation step', on the implementation by the 600 s bound",
+                    "several clauses are false of the code in named situations: modelled faithfully, stated as exact exceptions in the theorems, recorded as known findings"],
     },
     "C16": {
         "class_prefixes": ["c16-", "harness-crash"],
@@ -434,7 +475,7 @@ PROPS = {
     "C05": {
         "class_prefixes": ["c05-", "harness-crash"],
         "subs": [
-            {"name": "c05", "n_quick": 1500, "n_thorough": 60000, "model": "coq/Codec/Spec.v",
+            {"name": "c05", "n_quick": 1500, "n_thorough": 60000, "model": "coq/Codec/Spec.v", "reference": "c05-not-conforming",
              "rule": "values from the C03 generator (depth <= 3, arrays of supported element kinds, distinct map keys): `spec` = the real encoder's bytes through the extracted "
                      "reference decoder (must be exactly the value); `specv` = three alternative spec-valid encodings per value from the harness's variant encoder (uint0/smalluint/uint, "
                      "smallint/int, smalllong/long, ulong0/smallulong/ulong, str/sym/bin 8 and 32, list0/8/32, map8/32, array8/32 under every admissible element constructor, "
